@@ -1,11 +1,12 @@
 (* MpScopeClient.v — the archive scope classes as a CLIENT of the IMsgPackReader interface (the adaptive
    clients of MpStreamModel.v): the reader operations FindValueByKey / ReadKey / ResetKey / the typed reads /
    OpenObjectScope / the destructors of MpScopeModel.v issue, one after the other, each decision taken from
-   the answers seen so far.  Fragment of the history language (frag_reqs): RGet (any key kind, any target), RObj,
-   RArr with AGet / AObj / AArr / AEnd, RVisit, REach with VSkip / VGet / VObj / VArr (nested to any depth) —
-   repeated, absent, out-of-order keys and arrays left partly read included; no byte arrays, no guarded requests
-   (ATry); AThrow / VThrow (the caller's own code throws) are admitted, the client stops there.
-   Proved here: on the string reader the client returns what run_obj_root returns (whenever that is
+   the answers seen so far.  Fragment of the history language (frag_reqs): everything except the guarded request
+   ATry — RGet (any key kind, any target), RObj, RArr with AGet / AObj / AArr / ABin / AEnd, RBin, RVisit, REach with
+   VSkip / VGet / VObj / VArr / VBin / VBinArr (nested to any depth) — repeated, absent, out-of-order keys, arrays
+   and byte arrays left partly read included; AThrow / VThrow (the caller's own code throws) are admitted, the client
+   stops there.
+   Proved here: on the string reader the client returns what run_obj_root / run_arr_root returns (whenever that is
    Done .. false), and all its seeks stay inside the data. *)
 From BS Require Import Base MpSpec MpModel MpLemmas MpReader MpTyped MpScopeSpec MpScopeModel MpScopeLemmas MpScopeTyped MpScopeProofs MpScopeRefine.
 From BS Require StreamIStream StreamSpec StreamModel StreamBsrProofs MpStreamModel MpStreamProofs.
@@ -163,19 +164,68 @@ Definition c_do_arr (n : nat) (cbody : ascope -> N -> (list tok -> ascope -> N -
   c_find n q cst p (fun b cst1 p1 =>
     if b then c_arr_child n cbody (fun toks p4 => k toks (c_on_finish cst1) p4) else k [KNone] cst1 p1).
 
+(* CMsgPackReadBinaryScope: cnt times SerializeValue(char&) = CheckEnd (no reader call), ReadBinary *)
+Fixpoint c_bin_reads (cnt : nat) (ast : ascope) (p : N) (k : list tok -> ascope -> N -> cl) : cl :=
+  match cnt with
+  | O => k [] ast p
+  | S m =>
+    if a_index ast =? a_size ast then fail
+    else call SM.RdByte
+           (fun v p' => match v with
+                        | SM.VNum b => c_bin_reads m (mkA (a_size ast) (a_index ast + 1)) p' (fun t a p'' => k (KByte b :: t) a p'')
+                        | _ => fail
+                        end)
+           (fun _ => fail)
+  end.
+
+(* ~CMsgPackReadBinaryScope: for (; mIndex < mSize; ++mIndex) ReadBinary() *)
+Fixpoint c_bin_close_loop (fuel : nat) (idx size : N) (p : N) (k : N -> cl) : cl :=
+  match fuel with
+  | O => fail
+  | S f => if idx <? size then call SM.RdByte (fun _ p' => c_bin_close_loop f (idx + 1) size p' k) (fun _ => fail) else k p
+  end.
+Definition c_close_bin (n : nat) (ast : ascope) (p : N) (k : N -> cl) : cl :=
+  c_bin_close_loop n (a_index ast) (a_size ast) p k.
+
+(* OpenBinaryScope: ReadValueType; a binary: its size, cnt byte loads, the destructor; anything else: declined *)
+Definition c_bin_open (n cnt : nat) (kopen : list tok -> N -> cl) (knot : N -> cl) (kother : cl) : cl :=
+  call SM.RdType
+    (fun v _ => match v with
+                | SM.VType TBin =>
+                  call SM.RdBin
+                    (fun v2 p2 => match v2 with
+                                  | SM.VNum sz => c_bin_reads cnt (mkA sz 0) p2 (fun toks bast p3 =>
+                                                    c_close_bin n bast p3 (fun p4 => kopen (KOpen :: toks ++ [KClose]) p4))
+                                  | _ => fail
+                                  end)
+                    (fun p2 => knot p2)
+                | SM.VType _ => kother
+                | _ => fail
+                end)
+    (fun _ => fail).
+
+(* OpenBinaryScope(key) and the byte loads; kdecl: the optional came back empty (the caller may fall back to the array scope) *)
+Definition c_do_bin_gen (n cnt : nat) (q : qkey) (cst : cscope) (p : N)
+    (k kdecl : list tok -> cscope -> N -> cl) : cl :=
+  c_find n q cst p (fun b cst1 p1 =>
+    if b then c_bin_open n cnt (fun toks p4 => k toks (c_on_finish cst1) p4) (fun p2 => kdecl [KNone] (c_on_finish cst1) p2) (kdecl [KNone] cst1 p1)
+    else kdecl [KNone] cst1 p1).
+Definition c_do_bin (n cnt : nat) (q : qkey) (cst : cscope) (p : N) (k : list tok -> cscope -> N -> cl) : cl :=
+  c_do_bin_gen n cnt q cst p k k.
+
 (* the requests of the fragment; n bounds the loops (the member counts come from the document) *)
 Fixpoint c_req (n : nat) (r : req) (cst : cscope) (p : N) (k : list tok -> cscope -> N -> cl) {struct r} : cl :=
   match r with
   | RGet q t => c_do_get n q t cst p k
   | RObj q body => c_do_obj n (c_reqs n body) q cst p k
   | RArr q body => c_do_arr n (c_areqs n body) q cst p k
+  | RBin q cnt => c_do_bin n cnt q cst p k
   | RVisit =>
     c_reset_key cst p (fun cst1 p1 =>
       c_seek_if true (c_start cst1) p1 (fun p' => c_visit_loop n (c_set_index cst1 0) p' [] k))
   | REach acts =>
     c_reset_key cst p (fun cst1 p1 =>
       c_seek_if true (c_start cst1) p1 (fun p' => c_vacts n acts (c_set_index cst1 0) p' k))
-  | _ => fail
   end
 with c_reqs (n : nat) (l : reqs) (cst : cscope) (p : N) (k : list tok -> cscope -> N -> cl) {struct l} : cl :=
   match l with
@@ -196,6 +246,9 @@ with c_areq (n : nat) (a : areq) (ast : ascope) (p : N) (k : list tok -> ascope 
   | AArr body =>
     if a_index ast =? a_size ast then fail
     else c_arr_child n (c_areqs n body) (fun toks p4 => k toks next p4)
+  | ABin cnt =>
+    if a_index ast =? a_size ast then fail
+    else c_bin_open n cnt (fun toks p4 => k toks next p4) (fun p2 => k [KNone] next p2) (k [KNone] ast p)
   | _ => fail
   end
 with c_areqs (n : nat) (l : areqs) (ast : ascope) (p : N) (k : list tok -> ascope -> N -> cl) {struct l} : cl :=
@@ -210,6 +263,9 @@ with c_vact (n : nat) (a : vact) (q : qkey) (cst : cscope) (p : N) (k : list tok
   | VGet t => c_do_get n q t cst p k
   | VObj body => c_do_obj n (c_reqs n body) q cst p k
   | VArr body => c_do_arr n (c_areqs n body) q cst p k
+  | VBin cnt => c_do_bin n cnt q cst p k
+  | VBinArr cnt body =>
+    c_do_bin_gen n cnt q cst p k (fun t1 cst1 p1 => c_do_arr n (c_areqs n body) q cst1 p1 (fun t2 cst2 p2 => k (t1 ++ t2) cst2 p2))
   | _ => fail
   end
 (* for (mIndex = 0; mIndex < mSize;) { ReadKey(fn); ResetKey(); } with fn = the i-th action *)
@@ -237,17 +293,20 @@ Definition scope_client_arr (n : nat) (h : areqs) : cl :=
    error-free history never executes one) *)
 Fixpoint frag_req (r : req) : bool :=
   match r with
-  | RGet _ _ => true | RObj _ body => frag_reqs body | RArr _ body => frag_areqs body | RVisit => true | REach acts => frag_vacts acts
-  | _ => false
+  | RGet _ _ => true | RObj _ body => frag_reqs body | RArr _ body => frag_areqs body | RBin _ _ => true | RVisit => true
+  | REach acts => frag_vacts acts
   end
 with frag_reqs (l : reqs) : bool :=
   match l with RNil => true | RCons r l' => frag_req r && frag_reqs l' end
 with frag_areq (a : areq) : bool :=
-  match a with AGet _ => true | AObj body => frag_reqs body | AArr body => frag_areqs body | AEnd => true | AThrow _ => true | _ => false end
+  match a with AGet _ => true | AObj body => frag_reqs body | AArr body => frag_areqs body | ABin _ => true | AEnd => true | AThrow _ => true | ATry _ => false end
 with frag_areqs (l : areqs) : bool :=
   match l with ANil => true | ACons a l' => frag_areq a && frag_areqs l' end
 with frag_vact (a : vact) : bool :=
-  match a with VSkip => true | VThrow _ => true | VGet _ => true | VObj body => frag_reqs body | VArr body => frag_areqs body | _ => false end
+  match a with
+  | VSkip => true | VThrow _ => true | VGet _ => true | VObj body => frag_reqs body | VArr body => frag_areqs body | VBin _ => true
+  | VBinArr _ body => frag_areqs body
+  end
 with frag_vacts (l : vacts) : bool :=
   match l with VANil => true | VACons a l' => frag_vact a && frag_vacts l' end.
 
@@ -492,6 +551,98 @@ Section ClientProofs.
       split; [exact E3|]. split; [exact S3|]. rewrite O3, O2. reflexivity.
     Qed.
 
+    (* ---------- the binary scope ---------- *)
+    Lemma bin_reads_sim : forall cnt st d toks st' d' k, Suf d ->
+      bin_reads cnt st d = (toks, Go st' d') ->
+      SND (c_bin_reads cnt st (pos d) k) d = SND (k toks st' (pos d')) d' /\ Suf d'.
+    Proof.
+      induction cnt as [|m IH]; intros st d toks st' d' k Hd.
+      - cbn [bin_reads c_bin_reads]. intros H. injection H as <- <- <-. auto.
+      - cbn [bin_reads c_bin_reads]. destruct (a_index st =? a_size st); [discriminate|].
+        rewrite SND_call. pose proof (str_op_suffix SM.RdByte d Hd eq_refl) as HS. cbn [SM.str_op] in *.
+        destruct (read_binary d) as [b r|r|e|]; cbn [SM.rres_map] in *; try discriminate.
+        destruct (bin_reads m (mkA (a_size st) (a_index st + 1)) r) as [t oc] eqn:HB.
+        intros H. injection H as <- ->.
+        apply (IH _ r t st' d' (fun t a p'' => k (KByte b :: t) a p'') HS HB).
+    Qed.
+
+    Lemma bin_close_loop_sim : forall m n idx size d x r k, N.to_nat (size - idx) = m -> (m < n)%nat -> Suf d ->
+      take (size - idx) d = Some (x, r) ->
+      SND (c_bin_close_loop n idx size (pos d) k) d = SND (k (pos r)) r /\ Suf r.
+    Proof.
+      induction m as [|m IH]; intros n idx size d x r k Hm Hn Hd HT; destruct n as [|n]; try lia; cbn [c_bin_close_loop].
+      - assert (E : idx <? size = false) by lia. rewrite E.
+        apply take_some in HT. destruct HT as [-> HL]. assert (x = []) by (destruct x; [reflexivity | cbn [length] in HL; lia]). subst x.
+        cbn [app] in *. auto.
+      - assert (E : idx <? size = true) by lia. rewrite E.
+        apply take_some in HT. destruct HT as [-> HL]. destruct x as [|b x']; [cbn [length] in HL; lia|].
+        rewrite SND_call. pose proof (str_op_suffix SM.RdByte ((b :: x') ++ r) Hd eq_refl) as HS. cbn [SM.str_op app read_binary SM.rres_map] in *.
+        apply (IH n (idx + 1) size (x' ++ r) x' r k); [lia | lia | exact HS |].
+        apply take_app_n. cbn [length] in HL. lia.
+    Qed.
+
+    Lemma close_bin_sim n st d r k : (length data < n)%nat -> Suf d ->
+      close_bin st d = CDone r false ->
+      SND (c_close_bin n st (pos d) k) d = SND (k (pos r)) r /\ Suf r.
+    Proof.
+      intros Hn Hd. unfold close_bin, c_close_bin.
+      destruct (take (a_size st - a_index st) d) as [[x r0]|] eqn:HT; [|discriminate]. intros H. injection H as <-.
+      apply (bin_close_loop_sim (N.to_nat (a_size st - a_index st)) n (a_index st) (a_size st) d x r0 k eq_refl); [|exact Hd | exact HT].
+      pose proof (suf_len _ Hd). apply take_some in HT. destruct HT as [E HL]. rewrite E, app_length in H. lia.
+    Qed.
+
+    Lemma bin_child_sim n cnt {P : Type} (notify : P -> P) (pst pst' : P) r2 sz toks d' kopen :
+      (length data < n)%nat -> Suf r2 ->
+      with_child (after_child_bin notify pst) (plain (bin_reads cnt (mkA sz 0) r2)) = (toks, Go pst' d', false) ->
+      pst' = notify pst /\
+      SND (c_bin_reads cnt (mkA sz 0) (pos r2) (fun toks bast p3 => c_close_bin n bast p3 (fun p4 => kopen (KOpen :: toks ++ [KClose]) p4))) r2 =
+      SND (kopen toks (pos d')) d' /\ Suf d'.
+    Proof.
+      intros Hn HS. destruct (bin_reads cnt (mkA sz 0) r2) as [t oc] eqn:HB.
+      unfold with_child, plain. cbn [fst snd]. unfold after_child_bin, after_child.
+      destruct oc as [bst rest|e bst [rest|]| |].
+      - destruct (close_bin bst rest) as [r f|] eqn:HC; [|discriminate].
+        intros H. injection H as <- <- <- Hfl. cbn [orb] in Hfl. subst f.
+        split; [reflexivity|].
+        destruct (bin_reads_sim cnt (mkA sz 0) r2 t bst rest
+          (fun toks bast p3 => c_close_bin n bast p3 (fun p4 => kopen (KOpen :: toks ++ [KClose]) p4)) HS HB) as [E2 S2].
+        rewrite E2. apply (close_bin_sim n bst rest r (fun p4 => kopen (KOpen :: t ++ [KClose]) p4) Hn S2 HC).
+      - destruct (close_bin bst rest); discriminate.
+      - discriminate.
+      - discriminate.
+      - discriminate.
+    Qed.
+
+    (* ReadValueType, then the size, the byte loads and the destructor; or declined *)
+    Lemma bin_open_sim n cnt {P : Type} (notify : P -> P) (pst perr pother pst' : P) r1 toks d' (declined : bool) kopen knot kother :
+      (length data < n)%nat -> Suf r1 ->
+      match read_value_type r1 with
+      | inr e => (([], Raise (SE e) perr (Some r1), false), false)
+      | inl TBin =>
+        match read_bin_size o r1 with
+        | ROk sz r2 => (with_child (after_child_bin notify pst) (plain (bin_reads cnt (mkA sz 0) r2)), false)
+        | RNot r2 => (([KNone], Go (notify pst) r2, false), true)
+        | RErr e => (([], raise_typed e perr r1, false), false)
+        | RFuel => (([], NoFuel, false), false)
+        end
+      | inl _ => (([KNone], Go pother r1, false), true)
+      end = ((toks, Go pst' d', false), declined) ->
+      Suf d' /\
+      ((declined = false /\ pst' = notify pst /\ SND (c_bin_open n cnt kopen knot kother) r1 = SND (kopen toks (pos d')) d') \/
+       (declined = true /\ toks = [KNone] /\ pst' = notify pst /\ SND (c_bin_open n cnt kopen knot kother) r1 = SND (knot (pos d')) d') \/
+       (declined = true /\ toks = [KNone] /\ pst' = pother /\ d' = r1 /\ SND (c_bin_open n cnt kopen knot kother) r1 = SND kother r1)).
+    Proof.
+      intros Hn HS. unfold c_bin_open. rewrite SND_call. cbn [SM.str_op].
+      destruct (read_value_type r1) as [ty|e] eqn:HT; [|discriminate].
+      destruct ty; try (intros H; injection H as <- <- <- <-; split; [exact HS|]; right; right; auto).
+      rewrite SND_call. pose proof (str_op_suffix SM.RdBin r1 HS eq_refl) as HS2. cbn [SM.str_op] in *.
+      destruct (read_bin_size o r1) as [sz r2|r2|e|]; cbn [SM.rres_map] in *; try discriminate.
+      - intros H. injection H as H <-.
+        destruct (bin_child_sim n cnt notify pst pst' r2 sz toks d' kopen Hn HS2 H) as [-> [E S]].
+        split; [exact S|]. left. auto.
+      - intros H. injection H as <- <- <- <-. split; [exact HS2|]. right. left. auto.
+    Qed.
+
     (* ---------- requests ---------- *)
     Definition req_sim (n : nat) (r : req) : Prop :=
       frag_req r = true -> forall st d toks st' d' k, Suf (o_start st) -> Suf d ->
@@ -638,6 +789,61 @@ Section ClientProofs.
         rewrite E1. intros H. injection H as <- <- <-. split; [reflexivity|]. split; [exact S1|]. rewrite O1. exact Hs.
     Qed.
 
+    Lemma do_bin_gen_sim n cnt q st d toks st' d' (declined : bool) k kdecl : (length data < n)%nat -> Suf (o_start st) -> Suf d ->
+      do_bin_gen o (find_value_by_key narrow widen o) cnt q st d = ((toks, Go st' d', false), declined) ->
+      SND (c_do_bin_gen n cnt q (cs_of st) (pos d) k kdecl) d = SND ((if declined then kdecl else k) toks (cs_of st') (pos d')) d'
+      /\ Suf d' /\ Suf (o_start st').
+    Proof.
+      intros Hn Hs Hd. unfold do_bin_gen, c_do_bin_gen.
+      destruct (find_value_by_key narrow widen o q st d) as [[[|] st1] r1|e [b0 st1] p| |] eqn:HF; try discriminate.
+      - match goal with |- _ -> SND (c_find n q _ _ ?kf) d = _ /\ _ =>
+          destruct (find_sim n q st d true st1 r1 kf Hn Hs Hd HF) as [E1 [S1 O1]] end.
+        rewrite E1. intros H.
+        destruct (bin_open_sim n cnt on_finish_child st1 st1 st1 st' r1 toks d' declined
+          (fun toks p4 => k toks (c_on_finish (cs_of st1)) p4) (fun p2 => kdecl [KNone] (c_on_finish (cs_of st1)) p2)
+          (kdecl [KNone] (cs_of st1) (pos r1)) Hn S1 H) as [S2 [[-> [-> E]] | [[-> [-> [-> E]]] | [-> [-> [-> [-> E]]]]]]];
+          rewrite E; (split; [reflexivity|]); (split; [exact S2 || exact S1|]); cbn [on_finish_child o_start]; rewrite ?O1; exact Hs.
+      - match goal with |- _ -> SND (c_find n q _ _ ?kf) d = _ /\ _ =>
+          destruct (find_sim n q st d false st1 r1 kf Hn Hs Hd HF) as [E1 [S1 O1]] end.
+        rewrite E1. intros H. injection H as <- <- <- <-. split; [reflexivity|]. split; [exact S1|]. rewrite O1. exact Hs.
+    Qed.
+
+    Lemma do_bin_sim n cnt q st d toks st' d' k : (length data < n)%nat -> Suf (o_start st) -> Suf d ->
+      do_bin o (find_value_by_key narrow widen o) cnt q st d = (toks, Go st' d', false) ->
+      SND (c_do_bin n cnt q (cs_of st) (pos d) k) d = SND (k toks (cs_of st') (pos d')) d' /\ Suf d' /\ Suf (o_start st').
+    Proof.
+      intros Hn Hs Hd. unfold do_bin, c_do_bin.
+      destruct (do_bin_gen o (find_value_by_key narrow widen o) cnt q st d) as [r dec] eqn:HG. cbn [fst]. intros ->.
+      destruct (do_bin_gen_sim n cnt q st d toks st' d' dec k k Hn Hs Hd HG) as [E R]. split; [|exact R].
+      rewrite E. destruct dec; reflexivity.
+    Qed.
+
+    Lemma run_areq_bin cnt st d : run_areq narrow widen o (ABin cnt) st d =
+      if a_index st =? a_size st then ([], Raise SERange st (Some d), false)
+      else match read_value_type d with
+           | inr e => ([], Raise (SE e) st (Some d), false)
+           | inl TBin =>
+             match read_bin_size o d with
+             | ROk sz r => with_child (after_child_bin (fun s => s) (mkA (a_size st) (a_index st + 1))) (plain (bin_reads cnt (mkA sz 0) r))
+             | RNot r => ([KNone], Go (mkA (a_size st) (a_index st + 1)) r, false)
+             | RErr e => ([], raise_typed e st d, false)
+             | RFuel => ([], NoFuel, false)
+             end
+           | inl _ => ([KNone], Go st d, false)
+           end.
+    Proof. reflexivity. Qed.
+    Lemma c_areq_bin n cnt ast p k : c_areq n (ABin cnt) ast p k =
+      if a_index ast =? a_size ast then fail
+      else c_bin_open n cnt (fun toks p4 => k toks (mkA (a_size ast) (a_index ast + 1)) p4)
+             (fun p2 => k [KNone] (mkA (a_size ast) (a_index ast + 1)) p2) (k [KNone] ast p).
+    Proof. reflexivity. Qed.
+    Lemma run_vact_binarr cnt body q st d : run_vact narrow widen o (VBinArr cnt body) q st d =
+      match do_bin_gen o (find_value_by_key narrow widen o) cnt q st d with
+      | (r, true) => seq_res r (do_arr o (find_value_by_key narrow widen o) (run_areqs narrow widen o body) q)
+      | (r, false) => r
+      end.
+    Proof. reflexivity. Qed.
+
     Lemma run_req_visit st d : run_req narrow widen o RVisit st d =
       match reset_key st d with
       | Go st1 _ => plain (visit_loop narrow widen o (S (length (o_start st1))) (set_index st1 0) (o_start st1) [])
@@ -761,6 +967,8 @@ Section ClientProofs.
         intros q body IHb Hf st d toks st' d' k Hs Hd. apply (do_obj_sim n body q st d toks st' d' k Hn IHb Hf Hs Hd).
       - (* RArr *)
         intros q body IHb Hf st d toks st' d' k Hs Hd. apply (do_arr_sim n body q st d toks st' d' k Hn IHb Hf Hs Hd).
+      - (* RBin *)
+        intros q cnt _ st d toks st' d' k Hs Hd. apply (do_bin_sim n cnt q st d toks st' d' k Hn Hs Hd).
       - (* RVisit *)
         intros _ st d toks st' d' k Hs Hd. rewrite run_req_visit, c_req_visit.
         destruct (reset_key st d) as [st1 d1|e s p| |] eqn:HR; try discriminate.
@@ -815,6 +1023,29 @@ Section ClientProofs.
         destruct (arr_child_sim n body (fun s : ascope => s) (mkA (a_size st) (a_index st + 1)) st st' d toks d'
           (fun toks p4 => k toks (mkA (a_size st) (a_index st + 1)) p4) Hn IHb Hf Hd H) as [-> [E2 S2]].
         rewrite E2. split; [reflexivity | exact S2].
+      - (* ABin *)
+        intros cnt _ st d toks st' d' k Hd. rewrite run_areq_bin, c_areq_bin.
+        destruct (a_index st =? a_size st); [discriminate|]. intros H.
+        assert (H' : match read_value_type d with
+                     | inr e => (([], Raise (SE e) st (Some d), false), false)
+                     | inl TBin =>
+                       match read_bin_size o d with
+                       | ROk sz r2 => (with_child (after_child_bin (fun s : ascope => s) (mkA (a_size st) (a_index st + 1))) (plain (bin_reads cnt (mkA sz 0) r2)), false)
+                       | RNot r2 => (([KNone], Go (mkA (a_size st) (a_index st + 1)) r2, false), true)
+                       | RErr e => (([], raise_typed e st d, false), false)
+                       | RFuel => (([], NoFuel, false), false)
+                       end
+                     | inl _ => (([KNone], Go st d, false), true)
+                     end = ((toks, Go st' d', false),
+                            match read_value_type d with
+                            | inl TBin => match read_bin_size o d with RNot _ => true | _ => false end
+                            | inl _ => true | inr _ => false end)).
+        { destruct (read_value_type d) as [ty|e]; [|discriminate H].
+          destruct ty; try (rewrite H; reflexivity). destruct (read_bin_size o d); try discriminate H; rewrite H; reflexivity. }
+        destruct (bin_open_sim n cnt (fun s : ascope => s) (mkA (a_size st) (a_index st + 1)) st st st' d toks d' _
+          (fun toks p4 => k toks (mkA (a_size st) (a_index st + 1)) p4) (fun p2 => k [KNone] (mkA (a_size st) (a_index st + 1)) p2)
+          (k [KNone] st (pos d)) Hn Hd H') as [S2 [[_ [-> E]] | [[_ [-> [-> E]]] | [_ [-> [-> [-> E]]]]]]];
+          rewrite E; (split; [reflexivity | exact S2 || exact Hd]).
       - (* AEnd *)
         intros _ st d toks st' d' k Hd H. cbn [run_areq] in H. injection H as <- <- <-. cbn [c_areq]. auto.
       - (* AThrow *)
@@ -841,6 +1072,24 @@ Section ClientProofs.
         intros body IHb Hf q st d toks st' d' k Hs Hd. apply (do_obj_sim n body q st d toks st' d' k Hn IHb Hf Hs Hd).
       - (* VArr *)
         intros body IHb Hf q st d toks st' d' k Hs Hd. apply (do_arr_sim n body q st d toks st' d' k Hn IHb Hf Hs Hd).
+      - (* VBin *)
+        intros cnt _ q st d toks st' d' k Hs Hd. apply (do_bin_sim n cnt q st d toks st' d' k Hn Hs Hd).
+      - (* VBinArr *)
+        intros cnt body IHb Hf q st d toks st' d' k Hs Hd. cbn [frag_vact] in Hf. rewrite run_vact_binarr.
+        change (c_vact n (VBinArr cnt body) q (cs_of st) (pos d) k) with
+          (c_do_bin_gen n cnt q (cs_of st) (pos d) k
+             (fun t1 cst1 p1 => c_do_arr n (c_areqs n body) q cst1 p1 (fun t2 cst2 p2 => k (t1 ++ t2) cst2 p2))).
+        destruct (do_bin_gen o (find_value_by_key narrow widen o) cnt q st d) as [[[t1 oc1] f1] dec] eqn:HG.
+        destruct dec.
+        + unfold seq_res. destruct oc1 as [st1 r1|e s0 p| |]; try discriminate.
+          destruct (do_arr o (find_value_by_key narrow widen o) (run_areqs narrow widen o body) q st1 r1) as [[t2 oc2] f2] eqn:HA.
+          intros H. injection H as <- -> Hfl. apply orb_false_elim in Hfl. destruct Hfl as [-> ->].
+          destruct (do_bin_gen_sim n cnt q st d t1 st1 r1 true k
+            (fun t1 cst1 p1 => c_do_arr n (c_areqs n body) q cst1 p1 (fun t2 cst2 p2 => k (t1 ++ t2) cst2 p2)) Hn Hs Hd HG) as [E1 [S1 O1]].
+          rewrite E1.
+          apply (do_arr_sim n body q st1 r1 t2 st' d' (fun t2 cst2 p2 => k (t1 ++ t2) cst2 p2) Hn IHb Hf O1 S1 HA).
+        + intros H. injection H as -> -> ->.
+          apply (do_bin_gen_sim n cnt q st d toks st' d' false k _ Hn Hs Hd HG).
       - (* VANil *)
         intros _ st d toks st' d' k Hs Hd. rewrite run_vacts_nil, c_vacts_nil.
         destruct (visit_loop narrow widen o (S (length (o_start st))) st d []) as [t oc] eqn:HV.
@@ -1020,6 +1269,46 @@ Section ClientProofs.
     rewrite Hs', Hs2. reflexivity.
   Qed.
 
+  Lemma oks_bin_reads : forall cnt ast p k d, Lpos p -> (forall toks ast' p' d', Lpos p' -> OKS (k toks ast' p') d') -> OKS (c_bin_reads cnt ast p k) d.
+  Proof.
+    induction cnt as [|m IH]; intros ast p k d Hp H; cbn [c_bin_reads]; [apply H; exact Hp|].
+    destruct (a_index ast =? a_size ast); [apply OKS_fail|].
+    apply OKS_call; [reflexivity | | intros; apply OKS_fail].
+    intros v p' d' Hp'. destruct v; try apply OKS_fail. apply IH; [exact Hp'|]. intros; apply H; assumption.
+  Qed.
+
+  Lemma oks_bin_close_loop : forall f idx size p k d, Lpos p -> (forall p' d', Lpos p' -> OKS (k p') d') -> OKS (c_bin_close_loop f idx size p k) d.
+  Proof.
+    induction f as [|f IH]; intros idx size p k d Hp H; [apply OKS_fail|].
+    cbn [c_bin_close_loop]. destruct (idx <? size); [|apply H; exact Hp].
+    apply OKS_call; [reflexivity | | intros; apply OKS_fail]. intros v p' d' Hp'. apply IH; assumption.
+  Qed.
+
+  Lemma oks_bin_open n cnt kopen knot kother d : (forall toks p' d', Lpos p' -> OKS (kopen toks p') d') ->
+    (forall p' d', Lpos p' -> OKS (knot p') d') -> (forall d', OKS kother d') -> OKS (c_bin_open n cnt kopen knot kother) d.
+  Proof.
+    intros H1 H2 H3. unfold c_bin_open. apply OKS_call; [reflexivity | | intros; apply OKS_fail].
+    intros v p1 d1 _. destruct v; try apply OKS_fail. destruct t; try apply H3.
+    apply OKS_call; [reflexivity | |].
+    - intros v2 p2 d2 Hp2. destruct v2; try apply OKS_fail. apply oks_bin_reads; [exact Hp2|].
+      intros toks bast p3 d3 Hp3. unfold c_close_bin. apply oks_bin_close_loop; [exact Hp3|]. intros p4 d4 Hp4. apply H1; exact Hp4.
+    - intros p2 d2 Hp2. apply H2; exact Hp2.
+  Qed.
+
+  Lemma oks_do_bin_gen n cnt q cst p k kdecl d : Lpos (c_start cst) -> Lpos p ->
+    (forall toks cst' p' d', Lpos (c_start cst') -> Lpos p' -> OKS (k toks cst' p') d') ->
+    (forall toks cst' p' d', Lpos (c_start cst') -> Lpos p' -> OKS (kdecl toks cst' p') d') ->
+    OKS (c_do_bin_gen n cnt q cst p k kdecl) d.
+  Proof.
+    intros Hc Hp H1 H2. unfold c_do_bin_gen. apply oks_find; [exact Hc | exact Hp |].
+    intros b cst' p' d' Hs Hp'. destruct b.
+    - apply oks_bin_open.
+      + intros toks p4 d4 Hp4. apply H1; [cbn [c_on_finish c_start]; rewrite Hs; exact Hc | exact Hp4].
+      + intros p2 d2 Hp2. apply H2; [cbn [c_on_finish c_start]; rewrite Hs; exact Hc | exact Hp2].
+      + intros d2. apply H2; [rewrite Hs; exact Hc | exact Hp'].
+    - apply H2; [rewrite Hs; exact Hc | exact Hp'].
+  Qed.
+
   Definition req_oks (n : nat) (r : req) : Prop :=
     forall cst p k d, Lpos (c_start cst) -> Lpos p ->
     (forall toks cst' p' d', Lpos (c_start cst') -> Lpos p' -> OKS (k toks cst' p') d') -> OKS (c_req n r cst p k) d.
@@ -1097,6 +1386,9 @@ Section ClientProofs.
     - (* RGet *) intros q t cst p k d. apply oks_do_get.
     - (* RObj *) intros q body IHb cst p k d. apply (oks_do_obj n body q cst p k d IHb).
     - (* RArr *) intros q body IHb cst p k d. apply (oks_do_arr n body q cst p k d IHb).
+    - (* RBin *)
+      intros q cnt cst p k d Hc Hp H. change (c_req n (RBin q cnt) cst p k) with (c_do_bin_gen n cnt q cst p k k).
+      apply oks_do_bin_gen; assumption.
     - (* RVisit *)
       intros cst p k d Hc Hp H. cbn [c_req]. apply oks_reset; [exact Hp|]. intros cst1 p1 d1 Hs1 Hp1.
       apply oks_seek_if; [rewrite Hs1; exact Hc | exact Hp1 |]. intros p' d' Hp'.
@@ -1135,6 +1427,14 @@ Section ClientProofs.
          else c_arr_child n (c_areqs n body) (fun toks p4 => k toks (mkA (a_size ast) (a_index ast + 1)) p4)).
       destruct (a_index ast =? a_size ast); [apply OKS_fail|].
       apply (oks_arr_child n body (fun toks p4 => k toks (mkA (a_size ast) (a_index ast + 1)) p4) d IHb). intros toks p4 d4 Hp4. apply H; exact Hp4.
+    - (* ABin *)
+      intros cnt ast p k d Hp H.
+      change (c_areq n (ABin cnt) ast p k) with
+        (if a_index ast =? a_size ast then fail
+         else c_bin_open n cnt (fun toks p4 => k toks (mkA (a_size ast) (a_index ast + 1)) p4)
+                (fun p2 => k [KNone] (mkA (a_size ast) (a_index ast + 1)) p2) (k [KNone] ast p)).
+      destruct (a_index ast =? a_size ast); [apply OKS_fail|].
+      apply oks_bin_open; [intros; apply H; assumption | intros; apply H; assumption | intros; apply H; exact Hp].
     - (* AEnd *)
       intros ast p k d Hp H. cbn [c_areq]. apply H; exact Hp.
     - (* ANil *)
@@ -1150,6 +1450,17 @@ Section ClientProofs.
     - (* VGet *) intros t q cst p k d. apply oks_do_get.
     - (* VObj *) intros body IHb q cst p k d. apply (oks_do_obj n body q cst p k d IHb).
     - (* VArr *) intros body IHb q cst p k d. apply (oks_do_arr n body q cst p k d IHb).
+    - (* VBin *)
+      intros cnt q cst p k d Hc Hp H. change (c_vact n (VBin cnt) q cst p k) with (c_do_bin_gen n cnt q cst p k k).
+      apply oks_do_bin_gen; assumption.
+    - (* VBinArr *)
+      intros cnt body IHb q cst p k d Hc Hp H.
+      change (c_vact n (VBinArr cnt body) q cst p k) with
+        (c_do_bin_gen n cnt q cst p k
+           (fun t1 cst1 p1 => c_do_arr n (c_areqs n body) q cst1 p1 (fun t2 cst2 p2 => k (t1 ++ t2) cst2 p2))).
+      apply oks_do_bin_gen; [exact Hc | exact Hp | exact H |].
+      intros t1 cst1 p1 d1 Hc1 Hp1. apply (oks_do_arr n body q cst1 p1 _ d1 IHb Hc1 Hp1).
+      intros t2 cst2 p2 d2 Hc2 Hp2. apply H; assumption.
     - (* VANil *)
       intros cst p k d Hc Hp H. cbn [c_vacts]. apply oks_visit_loop; [exact Hp|].
       intros toks cst' p' d' Hs' Hp'. apply H; [rewrite Hs'; exact Hc | exact Hp'].
